@@ -105,6 +105,68 @@ func concScenario(payloads []string, decorator bool, c int, dpor bool) *explore.
 	}}
 }
 
+// ---- (a') batches through the publisher decorator ---------------------------------------------------------
+
+// Sequential Publish calls with batches over the keys {A,B,C}: every batch shape up to length 3, two calls.
+func batchScenario(maxLen int) *explore.Scenario {
+	return &explore.Scenario{Name: fmt.Sprintf("batch/decorator/len%d", maxLen), C: -1, DataOnly: true, Body: func() {
+		d := newDedup()
+		inner := hx.NewScriptPub("inner")
+		dec, err := d.PublisherDecorator()(inner)
+		if err != nil {
+			vs.Fail("setup", "%v", err)
+			return
+		}
+		keys := []string{"A", "B", "C"}
+		seen := map[string]bool{}
+		desc := ""
+		n := 0
+		for call := 0; call < 2; call++ {
+			l := 1 + vs.Choose(maxLen, 0, "batch length")
+			var batch []*message.Message
+			var wantThrough []string
+			for i := 0; i < l; i++ {
+				k := keys[vs.Choose(len(keys), 0, "key")]
+				m := message.NewMessage(fmt.Sprintf("u%d", n), []byte(k))
+				n++
+				batch = append(batch, m)
+				desc += k
+				if !seen[k] {
+					seen[k] = true
+					wantThrough = append(wantThrough, m.UUID)
+				}
+			}
+			desc += " "
+			before := len(inner.Snapshot())
+			if err := dec.Publish("t", batch...); err != nil {
+				vs.Fail("no-error", "batches [%s]: deduplicating decorator returned %v", desc, err)
+			}
+			var got []string
+			for _, c := range inner.Snapshot()[before:] {
+				if c.Topic != "t" {
+					vs.Fail("batch", "batches [%s]: published to topic %q", desc, c.Topic)
+				}
+				for _, m := range c.Msgs {
+					got = append(got, m.UUID)
+				}
+			}
+			if fmt.Sprint(got) != fmt.Sprint(wantThrough) {
+				vs.Fail("exactly-one-per-key", "batches [%s]: call %d passed %v to the wrapped publisher, expected the first arrival of each new key in order: %v", desc, call, got, wantThrough)
+			}
+			for _, m := range batch {
+				through := false
+				for _, u := range wantThrough {
+					through = through || u == m.UUID
+				}
+				if acked := vs.PeekClosed(m.Acked()); acked == through {
+					vs.Fail("duplicates-acked", "batches [%s]: message %s (key %s) through=%v acked=%v", desc, m.UUID, m.Payload, through, acked)
+				}
+			}
+		}
+		vs.Note("%s", desc)
+	}}
+}
+
 // ---- (b) window ------------------------------------------------------------------------------------------
 
 var deltas = []time.Duration{0, window / 2, window - time.Millisecond, window + time.Millisecond, window*3/2 - time.Millisecond,
@@ -216,6 +278,8 @@ func init() {
 		}
 		add(reg.Thorough, 40, func(t reg.Tier) *explore.Scenario { return concScenario([]string{"A", "A", "B", "B"}, dec, 2, true) })
 	}
+	add(reg.Quick, 5, func(t reg.Tier) *explore.Scenario { return batchScenario(3) })
+	add(reg.Thorough, 20, func(t reg.Tier) *explore.Scenario { return batchScenario(4) })
 	add(reg.Quick, 5, func(t reg.Tier) *explore.Scenario { return windowScenario(vs.Quiescent, 0) })
 	add(reg.Quick, 20, func(t reg.Tier) *explore.Scenario {
 		if t == reg.Thorough {
